@@ -12,7 +12,7 @@ Inductive case :=
 (* start node, version, private?; observed: printed string, then the parse-back via str / bytes / stream *)
 | Ser (o : oracles) (s : start) (v : Z) (ext : res str) (back : list (res pnode))
 (* BaseWallet.from_extended_key(string): observed (testnet, watch_only, key, chain, depth, index) *)
-| FromExt (o : oracles) (s : str) (ob : res (bool * bool * string * string * Z * Z))
+| FromExt (o : oracles) (s : str) (ob : res (bool * bool * string * string * Z * Z * bool))
 (* Version(key_type, bip, testnet) -> int -> Version.parse *)
 | Ver (kt bip : Z) (net : bool) (i : res Z) (back : res (Z * Z * bool))
 (* Version.parse of an arbitrary integer *)
@@ -78,20 +78,20 @@ Definition check_case (c : case) : Z :=
         end in
       verdict agrees prop
   | FromExt o s ob =>
-      let m := rmap (fun p => (snd p, watch_only (fst p), nkey (fst p), nchain (fst p), ndepth (fst p), nindex (fst p)))
+      let m := rmap (fun p => (snd p, watch_only (fst p), nkey (fst p), nchain (fst p), ndepth (fst p), nindex (fst p), ntestnet (fst p)))
                     (from_extended_key A (sha256 o) s) in
       let agrees :=
         match m, ob with
         | Err, Err => true
-        | Ok (t, w, k, c, d, i), Ok (t', w', k', c', d', i') =>
-            Bool.eqb t t' && Bool.eqb w w' && beq_bytes k (unhex k') && beq_bytes c (unhex c') && (d =? d') && (i =? i')
+        | Ok (t, w, k, c, d, i, nt), Ok (t', w', k', c', d', i', nt') =>
+            Bool.eqb t t' && Bool.eqb w w' && beq_bytes k (unhex k') && beq_bytes c (unhex c') && (d =? d') && (i =? i') && Bool.eqb nt nt'
         | _, _ => false
         end in
       let prop :=
         match decode_base58_checksum A (sha256 o) s, ob with
-        | Ok b, Ok (t, w, _, _, _, _) =>
+        | Ok b, Ok (t, w, _, _, _, _, nt) =>
             match slip_lookup (be2z (firstn 4 b)) with
-            | Some (kt, _, net) => Bool.eqb t net && Bool.eqb w (kt =? 1)
+            | Some (kt, _, net) => Bool.eqb t net && Bool.eqb w (kt =? 1) && Bool.eqb nt net
             | None => false                          (* a wallet was built from an unknown version *)
             end
         | Ok b, Err => true
